@@ -14,6 +14,7 @@ import (
 	"github.com/consensys/gnark/backend/witness"
 	"github.com/consensys/gnark/constraint"
 	"github.com/consensys/gnark/constraint/solver"
+	fcs "github.com/consensys/gnark/frontend/cs"
 )
 
 type DTerm struct {
@@ -30,6 +31,7 @@ type DInstr struct {
 	Commit             bool
 	HintID             uint32
 	HIns               [][]DTerm
+	Entries            [][]DTerm // lookup: the table entries visible to this instruction
 	Start, NOut        int
 	BlueprintName      string
 }
@@ -132,6 +134,39 @@ func DumpSystem(ccs interface{}) *DSystem {
 				di.HIns = append(di.HIns, lexp(l))
 			}
 			di.Start, di.NOut = int(h.OutputRange.Start), int(h.OutputRange.End-h.OutputRange.Start)
+		case strings.Contains(name, "BlueprintLookupHint"):
+			// calldata: [size, nbEntries, nbInputs, inputs...]; entries live in the blueprint
+			ec := reflect.ValueOf(bp).Elem().FieldByName("EntriesCalldata")
+			entries := make([]uint32, ec.Len())
+			for i := range entries {
+				entries[i] = uint32(ec.Index(i).Uint())
+			}
+			readLE := func(cd []uint32, j int) ([]DTerm, int) {
+				n := int(cd[j])
+				j++
+				var l []DTerm
+				for k := 0; k < n; k++ {
+					l = append(l, term(constraint.Term{CID: cd[j], VID: cd[j+1]}))
+					j += 2
+				}
+				return l, j
+			}
+			cd := inst.Calldata
+			nbEntries, nbInputs := int(cd[1]), int(cd[2])
+			di.Kind = "Lookup"
+			j := 0
+			for i := 0; i < nbEntries; i++ {
+				var l []DTerm
+				l, j = readLE(entries, j)
+				di.Entries = append(di.Entries, l)
+			}
+			j = 3
+			for i := 0; i < nbInputs; i++ {
+				var l []DTerm
+				l, j = readLE(cd, j)
+				di.HIns = append(di.HIns, l)
+			}
+			di.Start, di.NOut = int(inst.WireOffset), nbInputs
 		default:
 			di.Kind = "Other"
 			d.HasOther = true
@@ -188,6 +223,19 @@ func (di *DInstr) Coq() string {
 			ins[i] = coqlist(ts)
 		}
 		return fmt.Sprintf("IHint Z %d %s %d %d", di.HintID, coqlist(ins), di.Start, di.NOut)
+	case "Lookup":
+		pl := func(ls [][]DTerm) string {
+			out := make([]string, len(ls))
+			for i, l := range ls {
+				ts := make([]string, len(l))
+				for j, t := range l {
+					ts[j] = chterm(t)
+				}
+				out[i] = coqlist(ts)
+			}
+			return coqlist(out)
+		}
+		return fmt.Sprintf("ILookup Z %s %s %d", pl(di.Entries), pl(di.HIns), di.Start)
 	}
 	panic("cannot print instruction kind " + di.Kind)
 }
@@ -279,6 +327,29 @@ func SolveCapture(ccs interface{}, w witness.Witness, nbTasks int, extra ...solv
 	for id := range sys.MHintsDependencies {
 		id := id
 		f := solver.GetRegisteredHint(id)
+		if id == solver.GetHintID(fcs.Bsb22CommitmentComputePlaceholder) {
+			// the commitment hint is replaced by the provers; for plain solving use a deterministic stand-in
+			f = func(q *big.Int, in, out []*big.Int) error {
+				acc := big.NewInt(7)
+				for _, x := range in {
+					acc.Mul(acc, big.NewInt(31)).Add(acc, x).Mod(acc, q)
+				}
+				if acc.Sign() == 0 {
+					acc.SetInt64(1)
+				}
+				out[0].Set(acc)
+				return nil
+			}
+		}
+		if f != nil && strings.HasSuffix(solver.GetHintName(f), "hints.Randomize") {
+			// the random mask of in-circuit commitments: a fixed value makes solves comparable
+			f = func(q *big.Int, in, out []*big.Int) error {
+				for i := range out {
+					out[i].SetInt64(0x5eed + int64(i))
+				}
+				return nil
+			}
+		}
 		if f == nil {
 			continue
 		}
